@@ -67,6 +67,33 @@ pub fn map_cloned_collect_set<'a, I: Iterator, T: 'a + Clone + Ord, F: FnMut(I::
 { it.map(f).cloned().collect() }
 
 
+// `RECV.any(CLOSURE)`: `vals` are the values the closure actually returned for the items it was called on (a prefix,
+// because `any` short-circuits); the result is true iff one of them is true
+#[verifier::external_body]
+pub fn iter_any<I: Iterator, F: FnMut(I::Item) -> bool>(it: I, f: F) -> (r: bool)
+    requires
+        it.obeys_prophetic_iter_laws(),
+        forall|k: int| 0 <= k < it.remaining().len() ==> call_requires(f, (#[trigger] it.remaining()[k],)),
+    ensures
+        exists|vals: Seq<bool>| #![auto] vals.len() <= it.remaining().len()
+            && (forall|k: int| 0 <= k < vals.len() ==> call_ensures(f, (it.remaining()[k],), #[trigger] vals[k]))
+            && (r ==> vals.len() > 0 && vals.last() && forall|k: int| 0 <= k < vals.len() - 1 ==> !#[trigger] vals[k])
+            && (!r ==> vals.len() == it.remaining().len() && forall|k: int| 0 <= k < vals.len() ==> !#[trigger] vals[k]),
+{ let mut it = it; it.any(f) }
+
+// `RECV.all(CLOSURE)`
+#[verifier::external_body]
+pub fn iter_all<I: Iterator, F: FnMut(I::Item) -> bool>(it: I, f: F) -> (r: bool)
+    requires
+        it.obeys_prophetic_iter_laws(),
+        forall|k: int| 0 <= k < it.remaining().len() ==> call_requires(f, (#[trigger] it.remaining()[k],)),
+    ensures
+        exists|vals: Seq<bool>| #![auto] vals.len() <= it.remaining().len()
+            && (forall|k: int| 0 <= k < vals.len() ==> call_ensures(f, (it.remaining()[k],), #[trigger] vals[k]))
+            && (!r ==> vals.len() > 0 && !vals.last() && forall|k: int| 0 <= k < vals.len() - 1 ==> #[trigger] vals[k])
+            && (r ==> vals.len() == it.remaining().len() && forall|k: int| 0 <= k < vals.len() ==> #[trigger] vals[k]),
+{ let mut it = it; it.all(f) }
+
 // ---- std items without a vstd specification ------------------------------------------------------
 pub assume_specification<T: PartialEq>[ <[T]>::contains ](s: &[T], x: &T) -> (r: bool)
     ensures <T as PartialEqSpec>::obeys_eq_spec() ==> r == (exists|i: int| 0 <= i < s@.len() && PartialEqSpec::eq_spec(&#[trigger] s@[i], x));
